@@ -27,7 +27,8 @@ def main():
             n, skipped, diffs = validate.run(repo)
             out["validation"] = {"compared": n, "skipped": skipped,
                                  "diffs": [[d[0], d[1], str(d[2])[:300]] for d in diffs[:5]],
-                                 "linecol": [[d[0], d[1], d[2]] for d in getattr(validate.run, "linecol", [])[:5]]}
+                                 "linecol": [[d[0], d[1], d[2]] for d in getattr(validate.run, "linecol", [])[:5]],
+                                 "panics": [[d[0], d[1], d[2]] for d in getattr(validate.run, "panics", [])[:5]]}
         if fn != "validation_only":
             queries.set_shard(shard, nshards)
             queries.SEED = int(os.environ.get("VERIF_SEED", "0") or 0)
